@@ -147,26 +147,134 @@ def walk_extra_cases(ctx):
     return out
 
 
+# >>> b_res: resolver-lines -- specification and generators (model: coq/theories/Resolver.v, Props/C04_resolver.v)
+_RES_WS = b" \t\n\r\x0c"            # u8::is_ascii_whitespace (no vertical tab)
+_RES_HEX = b"0123456789abcdefABCDEF"
+
+
 def py_lines_resolver(raw):
-    """spec of BasicTokenResolver::from_text_lines: lines `0x<hex> <name>`; returns dict or None (error)"""
+    """independent spec of BasicTokenResolver::from_text_lines on the bytes of the file: lines end at LF;
+    a line that is not UTF-8 is an io error; `<id> <name>`: id = text before the first space minus every
+    leading "0x", u16 in hex with an optional '+'; name = rest minus trailing ASCII whitespace; later lines win.
+    Returns a dict, "io" or "syntax"."""
     out = {}
-    txt = raw.decode("utf-8")
-    for line in txt.splitlines(True):
-        if " " not in line:
-            return None
-        num, text = line.split(" ", 1)
-        while num.startswith("0x"):
-            num = num[2:]
+    pos = 0
+    while pos < len(raw):
+        j = raw.find(b"\n", pos)
+        end = len(raw) if j < 0 else j + 1
+        line, pos = raw[pos:end], end
         try:
-            if not num or not all(c in "0123456789abcdefABCDEF+" for c in num) or num.count("+") > (1 if num.startswith("+") else 0):
-                return None
-            z = int(num, 16)
-        except ValueError:
-            return None
+            line.decode("utf-8")
+        except UnicodeDecodeError:
+            return "io"
+        sp = line.find(b" ")
+        if sp < 0:
+            return "syntax"
+        num, text = line[:sp], line[sp + 1:]
+        while num.startswith(b"0x"):
+            num = num[2:]
+        if len(num) > 1 and num.startswith(b"+"):
+            num = num[1:]
+        if not num or any(c not in _RES_HEX for c in num):
+            return "syntax"
+        z = int(num.decode("ascii"), 16)
         if z > 0xffff:
-            return None
-        out[z] = text.rstrip(" \t\n\r\x0c")
+            return "syntax"
+        out[z] = text.rstrip(_RES_WS)
     return out
+
+
+def resolver_expect(spec, ask):
+    if isinstance(spec, str):
+        return "ERR:" + spec
+    return "%d %s" % (0 if spec else 1, ",".join(hx(spec[i]) if i in spec else "none" for i in ask))
+
+
+RES_FIXED = [b"", b"\n", b" \n", b" ", b"1 a", b"1 a\n", b"1 a\r\n", b"1  a\n", b"1\ta\n", b"1 \ta\n", b"0x0x12 a\n", b"0x0x a\n",
+             b"+1f a\n", b"-1 a\n", b"+ a\n", b"- a\n", b"++1 a\n", b"+-1 a\n", b"0x+1 a\n", b"+0x1 a\n", b"1_0 a\n", b"10000 a\n",
+             b"0ffff a\n", b"0xFFFF a\n", b"00000001 a\n", b"000010000 a\n", b"fffff a\n", b"0X1 a\n", b"00x1 a\n", b"0xx1 a\n", b"x1 a\n",
+             b"0x a\n", b"1 a\n\n", b"\n1 a\n", b"1 a\n1 b\n", b"1 a\n01 b\n0x0x1 c", b"1 a\n2 b\n1\n", b"1 a\n2 b\n1 \n",
+             "1 naïve\n".encode(), "1 日本\n".encode(), "\uff11 a\n".encode(), "1\u00a0a\n".encode(), "1 a\u00a0\n".encode(),
+             "1 a\u2003\n".encode(), b"1 \xff\n", b"\xff 1\n", b"1 a\n\xff", b"1 a\n2 \xc3", b"zz a\n1 \xff\n", b"1 \xff\nzz a\n",
+             b"1 \xed\xa0\x80\n", b"1 \xc0\xaf\n", b"1 \xf4\x90\x80\x80\n", b"1 \xe2\x82\n", b"1 \xe2\n\x82\xac\n", b"1 a \t\r\n", b"1 a\x0b\n",
+             b"1 a\x0c\n", b"1 a\x1f\n", b"1 a\rb\n", b"1 a\r2 b\n", b"ffff a\nFFFF b\n", b"fFfF a\n", b"1 2 3\n", b"1 0x2\n", b"0 a\n",
+             b"0x0 \n", b"0x00 ", b"0x0", b"12", b"1 a\n2", b"1 a\n2 ", b"a b\n", b"g b\n", b"/ b\n", b": b\n", b"@ b\n", b"G b\n", b"` b\n",
+             b"9 b\na b\nf b\nA b\nF b\n"]
+
+
+def resolver_cases(ctx):
+    """files of token lines: (case line, expected output of the specification)"""
+    rng = ctx.rng
+    names = [b"abc", b"my_test_token", b"a b", b"x\t", b"", "naïve".encode(), b"q=1", b" lead", b"tr \t ", b"v\x0b", b"f\x0c",
+             "日本".encode(), "x\u00a0".encode(), b"a\rb", b"0x10 y", b"\t", b"\xf0\x9f\x98\x80"]
+    bad_utf8 = [b"\xff", b"\xc3", b"\xe2\x82", b"\xed\xa0\x80", b"\xc0\xaf", b"\xf4\x90\x80\x80", b"\x80", b"\xf8\x88\x80\x80\x80"]
+    good_forms = ["0x%04x", "0x%04x", "0x%x", "%04x", "0x%04X", "0x0x%x", "%x", "%X", "+%x", "0x+%04x", "%08x", "0x0x0x%04x"]
+    odd_forms = ["0x%05x", "0X%x", "00x%x", "-%x", "%x_", "0x%xg", "+0x%x", "++%x", "%x\t", "\t%x", "0xx%x", "x%x", "%x,", "#%x"]
+    odd_ids = ["zz", "", "0x", "-1", "+", "-", "1 2", "0x0x", "\uff11\uff12", "10000", "0x10000", "fffff", "1\u00a0"]
+    out = []
+    for _ in range(ctx.scale(600, 6000)):
+        dirty = rng.random() < 0.5
+        pool = [0, 1, 0xffff, rng.randrange(0, 0x10000), rng.randrange(0, 0x10000), rng.randrange(0, 0x100)]
+        lines, ids = [], []
+        for _j in range(rng.randrange(0, 6)):
+            i = rng.choice(pool)
+            form = (rng.choice(good_forms) % i).encode()
+            name = rng.choice(names)
+            sep = b" "
+            nl = rng.choice([b"\n", b"\n", b"\n", b"\r\n", b" \n", b"\t\r\n"])
+            if dirty:
+                r = rng.random()
+                if r < 0.05:
+                    form = (rng.choice(odd_forms) % i).encode()
+                elif r < 0.09:
+                    form = rng.choice(odd_ids).encode()
+                elif r < 0.12:
+                    form = ("%x" % rng.choice([0x10000, 0x10001, 0xfffff, 0x12345, 0x100000000])).encode()
+                elif r < 0.15:
+                    sep = rng.choice([b"", b"\t", b"  ", "\u00a0".encode(), "\u3000".encode()])
+                elif r < 0.18:
+                    nl = rng.choice([b"\n\n", b"\r", b"", b"\n \n"])
+                elif r < 0.22:
+                    bad = rng.choice(bad_utf8)
+                    k = rng.randrange(3)
+                    if k == 0:
+                        name = name[:rng.randrange(len(name) + 1)] + bad
+                    elif k == 1:
+                        form = form + bad
+                    else:
+                        name = bad + name
+            lines.append(form + sep + name + nl)
+            ids.append(i)
+        if lines and rng.random() < 0.3:
+            lines[-1] = lines[-1].rstrip(b"\r\n")
+        raw = b"".join(lines)
+        ask = sorted(set(ids + [0x1234]))
+        out.append((raw, ask))
+    for raw in RES_FIXED:
+        out.append((raw, [0, 1, 2, 9, 10, 15, 0x12, 0x1f, 0xffff, 0x1234]))
+    cases, exps = [], []
+    for raw, ask in out:
+        spec = py_lines_resolver(raw)
+        cases.append("de.resolver\trawlines:%s\t%s" % (hx(raw), ",".join("%04x" % i for i in ask)))
+        exps.append(resolver_expect(spec, ask))
+        ctx.count("resolver_file_" + (spec if isinstance(spec, str) else ("empty" if not spec else "ok")))
+    # the two other ways the harness builds a resolver: a HashMap (`map:`) and "0x{:04x} {}\n" lines (`lines:`,
+    # Resolver.render_std on the model side); names are valid UTF-8 but may hold LF / trailing whitespace
+    pair_names = [b"abc", b"a b", b"", b"x ", b"x\n", b"a\nb", b"a\n2 b", "naïve".encode(), b" lead", b"t\t", b"v\x0b"]
+    for _ in range(ctx.scale(150, 1500)):
+        pairs = [(rng.choice([0, 1, 2, 0xffff, rng.randrange(0x10000)]), rng.choice(pair_names)) for _j in range(rng.randrange(0, 5))]
+        ask = sorted(set([k for k, _v in pairs] + [2, 0x1234]))
+        body = ",".join("%04x=%s" % (k, hx(v)) for k, v in pairs) or "-"
+        kind = rng.choice(["map", "lines"])
+        if kind == "map":
+            spec = dict(pairs)
+        else:
+            spec = py_lines_resolver(b"".join(b"0x%04x %s\n" % (k, v) for k, v in pairs))
+        cases.append("de.resolver\t%s:%s\t%s" % (kind, body, ",".join("%04x" % i for i in ask)))
+        exps.append(resolver_expect(spec, ask))
+        ctx.count("resolver_spec_" + kind)
+    return cases, exps
+# <<< b_res: resolver-lines
 
 
 def to_model(cases):
@@ -244,36 +352,15 @@ def run(ctx):
     if not (a == b == c):
         ctx.fail("O-tape-rgb-in-array", "x={ rgb{1 2 3} } into seq(any): tape %s, on-demand %s, stream %s" % (a[:90], b[:90], c[:90]), oc, [a, b, c], b)
 
-    # token text-line parser of BasicTokenResolver
-    rcases, rexp = [], []
-    for _ in range(ctx.scale(400, 4000)):
-        lines = []
-        ids = []
-        for _j in range(rng.randrange(0, 5)):
-            i = rng.choice([0, 1, 0xffff, 0x10000, rng.randrange(0, 0x10000)])
-            name = rng.choice(["abc", "my_test_token", "a b", "x\t", "", "naïve", "q=1", " lead"])
-            form = rng.choice(["0x%04x", "0x%x", "%04x", "0x%04X", "0x0x%x", "%x", "0x%05x"]) % i
-            if rng.random() < 0.06:
-                form = rng.choice(["zz", "", "0x", "-1", "+1f", "0x+1f", "1 2"])
-            sep = " " if rng.random() < 0.95 else ""
-            nl = rng.choice(["\n", "\n", "\r\n", " \n"])
-            lines.append(form + sep + name + nl)
-            ids.append(i & 0xffff)
-        if lines and rng.random() < 0.3:
-            lines[-1] = lines[-1].rstrip("\r\n")
-        raw = "".join(lines).encode("utf-8")
-        ask = sorted(set(ids + [0x1234]))
-        rcases.append("de.resolver\trawlines:%s\t%s" % (hx(raw), ",".join("%04x" % i for i in ask)))
-        spec = py_lines_resolver(raw)
-        if spec is None:
-            rexp.append("ERR:syntax")
-        else:
-            rexp.append("%d %s" % (0 if spec else 1, ",".join(hx(spec[i]) if i in spec else "none" for i in ask)))
-    impl, _ = ctx.correspond("resolver-lines", rcases, nontrivial=lambda c, i: not i.startswith("ERR"), model=False)
+    # >>> b_res: resolver-lines -- token text-line parser of BasicTokenResolver: the extracted Resolver.from_text_lines /
+    # resolve / is_empty against the real code, and the real code against the Python specification
+    rcases, rexp = resolver_cases(ctx)
+    impl, _ = ctx.correspond("resolver-lines", rcases, nontrivial=lambda c, i: not i.startswith("ERR"))
     base = len(impl) - len(rcases)
     for k, e in enumerate(rexp):
         if impl[base + k] != e:
             ctx.fail("resolver-lines", "from_text_lines answers %s, the lines say %s" % (impl[base + k], e), [rcases[k]], [impl[base + k]], e)
+    # <<< b_res: resolver-lines
 
     # the three deserializer walks inside the Coq model (BinDeTape / BinDeOndemand / BinDeReader over
     # SerdeShape.walk, run from the bytes: tape parser, lexer and streaming reader are the C03/C08 models)
